@@ -224,6 +224,9 @@ def check(ctx, case):
         return [G.to_numpy(x) for x in objs]
 
     ra = arrays(ref)
+    gscale = max([float(np.abs(r).max()) for r in ra if r.size] + [0.0])
+    if gscale == 0.0:
+        gscale = 1.0
     for cfg, out in results.items():
         oa = arrays(out)
         want_real = np.float32 if cfg[2] == "float32" else np.float64
@@ -236,7 +239,9 @@ def check(ctx, case):
             ctx.clauses["configured-dtype"] += 1
             if cfg == ("numpy", None, "float64"):
                 continue
-            scale = max(float(np.abs(r).max()), 1e-30)
+            # an output that is numerically empty (e.g. an annulus that contains no pixel of a tiny grid: values ~1e-33)
+            # is judged against the scale of the pipeline's other outputs, not against its own rounding noise
+            scale = max(float(np.abs(r).max()), 1e-9 * gscale, 1e-30)
             pre = "transform-" if case["kind"] == "transform" else ("reuse-" if case["kind"] == "reuse" else "")
             single = cfg[2] == "float32" or o.dtype in (np.float32, np.complex64) or r.dtype in (np.float32, np.complex64)
             if not single:
